@@ -542,8 +542,15 @@ def sample(ctx, budget=1.0, hint=None, broken=None):
         P._quad_available = quad_avail and saved_q
         try:
             for it in range(int(ctx.n(60, 600) * budget)):
-                kind = r.choice(['line', 'quad', 'cubic'])
+                kind = r.choice(['line', 'quad', 'cubic', 'cubic'])
                 s = seg(kind)
+                if kind == 'cubic' and r.random() < 0.4:
+                    # an S-shaped cubic whose midpoint lies on its chord: the pure-Python length recursion accepts the chord at depth 0, so what
+                    # a record says about the DEPTH it was computed at matters here (and only here)
+                    a_ = complex(r.randint(-4, 4), r.randint(-4, 4)) + 0.5
+                    d_ = complex(r.choice([3, -3, 2]), r.choice([0, 1, -2]))
+                    h_ = r.choice([1, -1, 0.5]) * 1j
+                    s = P.CubicBezier(a_, a_ + d_ * (1 / 3 + h_ / 3), a_ + d_ * (2 / 3 - h_ / 3), a_ + d_)
                 n_eval += 1
                 nontriv.add(('segcache', kind, quad_avail))
                 hist = []
@@ -596,6 +603,29 @@ def sample(ctx, budget=1.0, hint=None, broken=None):
                         break
                 if s == freshs and hash(s) != hash(freshs):
                     fail('%s.__hash__' % kind, 'equal segments with different hashes', {'segment': repr(freshs)}, 'hash differs', 'hash equal')
+            # a record computed at a SHALLOW depth must not answer a deeper request, also after it was handed to a reversed / copied object
+            for it in range(int(ctx.n(16, 160) * budget)):
+                a_ = complex(r.randint(-4, 4), r.randint(-4, 4)) + 0.5
+                d_ = complex(r.choice([3, -3, 2]), r.choice([0, 1, -2]))
+                h_ = r.choice([1, -1, 0.5]) * 1j
+                s = P.CubicBezier(a_, a_ + d_ * (1 / 3 + h_ / 3), a_ + d_ * (2 / 3 - h_ / 3), a_ + d_)
+                e_, dp_ = r.choice([(1e-12, 0), (1e-12, 2), (1e-9, 1), (1e-12, 4)])
+                hist = ['length(error=%g,min_depth=%d)' % (e_, dp_)]
+                s.length(error=e_, min_depth=dp_)
+                how_ = r.choice(['reversed()', 'reversed()', 'reversed().reversed()', 'copy.copy', 'itself'])
+                o = {'reversed()': lambda x: x.reversed(), 'reversed().reversed()': lambda x: x.reversed().reversed(),
+                     'copy.copy': lambda x: __import__('copy').copy(x), 'itself': lambda x: x}[how_](s)
+                hist.append(how_)
+                fr_ = P.CubicBezier(*o.bpoints())
+                n_eval += 1
+                nontriv.add(('shallow-record', how_, quad_avail))
+                for args in [(), (e_, 5), (e_, dp_ + 1)]:
+                    a = o.length(*((0, 1) + args)) if args else o.length()
+                    b = fr_.length(*((0, 1) + args)) if args else fr_.length()
+                    if abs(a - b) > (1e-9 if P._quad_available else 1e-8) * (1 + abs(b)):
+                        fail('cubic.length after a shallower first request', 'length() at a deeper min_depth returns what a shallower measurement left behind (also through reversed()/copies)',
+                             {'segment': repr(fr_), 'history': hist + ['length%r' % (args,)], 'scipy_quad': bool(P._quad_available)}, repr(a), repr(b))
+                        break
         finally:
             P._quad_available = saved_q
 
